@@ -10,12 +10,15 @@ Property theorems (all n, all thread counts p ≥ 1, any strict weak order, both
   * `sampling_mergesort_is_stable_sort`— sampling splitting, any non-decreasing splitters: the same
   * `unstable_mergesort_sorted_perm`   — unstable variant: sorted permutation of the input
   * `merge_windows_tile`               — each position of the range is written by exactly one thread
+  * `merge_back_all_schedules`         — between two barriers: threads with disjoint write windows reading only
+                                         the temporaries commute, every interleaving gives the same range
   * `temporaries_ledger_balanced`      — n objects constructed in raw storage, n destroyed
   * `small_input_untouched`            — n ≤ 1: nothing happens
 Local `std::(stable_)sort` and the per-thread `multiway_merge_base` (C05) are their specifications;
 offset vectors of exact splitting are assumed to satisfy the C08 specification.
 -/
 import TlxVerif.Proofs.C06Sampling
+import TlxVerif.Proofs.C07Phases
 import TlxVerif.Proofs.C08Checker
 namespace TlxVerif.C06
 open TlxVerif.C08 (StrictWeak IsPartition)
@@ -92,6 +95,18 @@ theorem merge_windows_tile (ls : List Nat) (k : Nat) (hk : k < ls.sum) :
       ∀ t', t' < ls.length → (ls.take t').sum ≤ k → k < (ls.take (t' + 1)).sum → t' = t :=
   C07.windows_tile ls k hk
 
+/-- **All schedules of the merge-back phase** (between the last two barriers): thread `t` assigns only the
+positions of its window of the caller's range (`inl k`) and reads only temporaries (`inr j`, written by
+nobody in this phase) ⇒ every interleaving respecting program order leaves the same memory.  The copy phase
+(thread t writes only its own temporary, reads only its slice) is the same theorem with the roles of the
+two regions exchanged. -/
+theorem merge_back_all_schedules {Val : Type} (ls : List Nat) (progs : List (List (Phases.Step Phases.Cell Val)))
+    (h : ∀ (t : Nat) (p : List (Phases.Step Phases.Cell Val)), progs[t]? = some p → ∀ s ∈ p,
+      Phases.ReadsInputsOnly s ∧ Phases.WritesWindow (ls.take t).sum (ls.take (t + 1)).sum s)
+    {l₁ l₂ : List (Phases.Step Phases.Cell Val)} (h₁ : Phases.Shuffle progs l₁) (h₂ : Phases.Shuffle progs l₂)
+    (m : Phases.Cell → Val) : Phases.exec l₁ m = Phases.exec l₂ m :=
+  Phases.merge_phase_schedule_independent ls progs h h₁ h₂ m
+
 theorem temporaries_ledger_balanced (n p : Nat) (hp : 1 ≤ p) :
     (ledger (startsOf n p)).1 = n ∧ (ledger (startsOf n p)).2 = n :=
   ledger_balanced n p hp
@@ -132,9 +147,9 @@ example : sortStable exLt exInput =
 -- OPEN: pmsort_refines_spec — `pmsort P input = .ok r` with `r.out = sortStable lt input` for all inputs:
 --   the model's glue (building `pieces` from `partitionM` / `lowerBound` results in `for` loops, `assemble`) is
 --   not proved equal to `chunkRows`; it is exercised by the correspondence.  Also needs the C08 OPEN item.
--- OPEN: schedule_independence — every interleaving yields the same range: argued from `merge_windows_tile`
---   (disjoint write windows between barriers, temporaries written only by their owner before the first
---   barrier) and the barrier property (C11); no transition-system proof here.  ThreadSanitizer is supporting
---   evidence only.
+-- OPEN: schedule_independence — `merge_back_all_schedules` proves it per phase for the asserted window
+--   footprints; that the phases are separated (ThreadBarrierMutex is a barrier, C11) and that the real code's
+--   accesses stay inside those footprints is checked by the harness (per-position writer / copier, counts)
+--   and ThreadSanitizer, not derived from the C++; sequentially consistent memory is assumed.
 
 end TlxVerif.C06
